@@ -101,6 +101,14 @@ pub fn rand_scalars<G: AffineRepr>(seed: u64, n: usize) -> Vec<F<G>> {
     (0..n).map(|_| F::<G>::rand(&mut r)).collect()
 }
 
+/// Gate counts as the *real* constraint system reported them (`multipliers_len()` after the last
+/// first-phase call and after the last call), independent of the model.
+pub fn real_gate_counts(trace: &[crate::interp::cur::CallRec]) -> (usize, usize) {
+    let n1 = trace.iter().filter(|c| !c.phase2).last().map(|c| c.mlen).unwrap_or(0);
+    let n = trace.last().map(|c| c.mlen).unwrap_or(0).max(n1);
+    (n1, n - n1)
+}
+
 /// Signature of a circuit shape for distinct counting.
 pub fn shape_sig<Fld: ark_ff::PrimeField>(curve: &str, m: &Model<Fld>, closures: usize) -> String {
     format!(
